@@ -32,7 +32,8 @@ def rundir(R):
     d = os.path.join(R.work, "run-%d" % os.getpid())
     shutil.rmtree(d, ignore_errors=True)
     os.makedirs(d)
-    atexit.register(lambda: shutil.rmtree(d, ignore_errors=True))
+    if not os.environ.get("VERIF_CODEC_KEEP"):      # debugging aid: keep the case files and traces of this run
+        atexit.register(lambda: shutil.rmtree(d, ignore_errors=True))
     # stale directories of killed runs (older than 2 hours)
     import time
     for n in os.listdir(R.work):
